@@ -242,7 +242,7 @@ class Ctx(object):
             try:
                 self._eval(entry, fn, case)
             except Violation as v:
-                self._record_failure(entry, 'case', case, v)
+                self._record_failure(entry, 'case', getattr(v, 'case_override', None) or case, v)
                 return
 
     def run_given(self, entry, strategy, max_examples, fn=None, shrink=True):
@@ -266,7 +266,7 @@ class Ctx(object):
             try:
                 ctx._eval(entry, fn, case)
             except Violation as v:
-                last['case'] = case
+                last['case'] = getattr(v, 'case_override', None) or case
                 last['v'] = v
                 raise
 
@@ -281,6 +281,31 @@ class Ctx(object):
                 self.labels['flaky_failure'] += 1
             else:
                 raise HarnessError('flaky without violation in %s: %s' % (entry, exc))
+
+    def collect(self, name, strategy, count, skip=1):
+        """`count` values of a strategy (seeded), skipping Hypothesis' first, simplest examples.  Used where a finite
+        sub-domain is enumerated deterministically inside generated scenarios."""
+        import hypothesis
+        from hypothesis import given, settings, HealthCheck, Phase, Verbosity
+        out = []
+
+        @hypothesis.seed(self.derive_seed('collect:' + name))
+        @settings(max_examples=count + skip, database=None, deadline=None, derandomize=False,
+                  phases=[Phase.generate], verbosity=Verbosity.quiet,
+                  suppress_health_check=list(HealthCheck))
+        @given(strategy)
+        def grab(value):
+            out.append(value)
+
+        with quiet():
+            grab()
+        seen, uniq = set(), []
+        for v in out[skip:] + out[:skip]:
+            c = canonical(v)
+            if c not in seen:
+                seen.add(c)
+                uniq.append(v)
+        return uniq[:count]
 
     def run_machine(self, entry, max_examples, step_count, cls=None):
         """Hypothesis stateful search; the machine records its own trace for replay."""
